@@ -229,3 +229,80 @@ Proof.
   rewrite mk_entry_P, mk_entry_PS, mk_entry_frame by (assumption || reflexivity).
   repeat split; reflexivity.
 Qed.
+
+(** SetFrame on an existing entry touches bits 12-51 only *)
+Lemma mask_bit n : N.testbit vmm_ptePhysPageMask n = (12 <=? n) && (n <? 52).
+Proof.
+  rewrite phys_mask_val. destruct (N.leb_spec 12 n) as [H|H].
+  - rewrite N.shiftl_spec_high' by exact H. cbn [andb].
+    destruct (N.ltb_spec n 52) as [H2|H2]; [rewrite N.ones_spec_low by lia | rewrite N.ones_spec_high by lia]; reflexivity.
+  - rewrite N.shiftl_spec_low by exact H. reflexivity.
+Qed.
+
+Lemma set_frame_bit_low e f n : n < 12 -> N.testbit (set_frame e f) n = N.testbit e n.
+Proof.
+  intros Hn. unfold set_frame, andnot, frame_addr, shl64, w64. rewrite page_shift_val.
+  rewrite N.lor_spec, N.ldiff_spec, mask_bit.
+  replace (12 <=? n) with false by (symmetry; apply N.leb_gt; exact Hn). cbn [andb negb]. rewrite andb_true_r.
+  replace (N.testbit (N.shiftl f 12 mod two64) n) with false; [apply orb_false_r|].
+  symmetry. unfold two64. change 0x10000000000000000 with (2 ^ 64). rewrite N.mod_pow2_bits_low by lia.
+  apply N.shiftl_spec_low. exact Hn.
+Qed.
+
+Lemma set_frame_P e f : hw_P (set_frame e f) = hw_P e.
+Proof. apply set_frame_bit_low. lia. Qed.
+Lemma set_frame_PS e f : hw_PS (set_frame e f) = hw_PS e.
+Proof. apply set_frame_bit_low. lia. Qed.
+
+Lemma set_frame_frame e f : f < 2 ^ 40 -> hw_frame (set_frame e f) = f.
+Proof.
+  intros H.
+  assert (H52: f < 2 ^ 52) by (change (2 ^ 40) with 1099511627776 in H; change (2 ^ 52) with 4503599627370496; lia).
+  unfold set_frame, andnot. rewrite frame_addr_small by exact H52.
+  unfold hw_frame. change 0xFFFFFFFFFF with (N.ones 40).
+  apply N.bits_inj. intros n. rewrite N.land_spec, N.shiftr_spec', N.lor_spec, N.ldiff_spec, mask_bit.
+  rewrite N.shiftl_spec_high' by lia. replace (n + 12 - 12) with n by lia.
+  replace (12 <=? n + 12) with true by (symmetry; apply N.leb_le; lia). cbn [andb].
+  destruct (N.ltb_spec n 40) as [Hn|Hn].
+  - rewrite N.ones_spec_low by exact Hn. replace (n + 12 <? 52) with true by (symmetry; apply N.ltb_lt; lia).
+    cbn [negb]. rewrite andb_false_r, andb_true_r. reflexivity.
+  - rewrite N.ones_spec_high by exact Hn. rewrite andb_false_r.
+    symmetry. apply N.bits_above_log2.
+    destruct (N.eq_dec f 0) as [->|Hz]; [cbn; lia|].
+    apply N.log2_lt_pow2; [lia|]. eapply N.lt_le_trans; [exact H|]. apply N.pow_le_mono_r; lia.
+Qed.
+
+Lemma set_frame_twice e f g : f < 2 ^ 40 -> set_frame (set_frame e f) g = set_frame e g.
+Proof.
+  intros Hf.
+  assert (H52: f < 2 ^ 52) by (change (2 ^ 40) with 1099511627776 in Hf; change (2 ^ 52) with 4503599627370496; lia).
+  unfold set_frame, andnot. f_equal.
+  apply N.bits_inj. intros n. rewrite !N.ldiff_spec, N.lor_spec, N.ldiff_spec.
+  destruct (N.testbit vmm_ptePhysPageMask n) eqn:E; cbn [negb]; rewrite ?andb_false_r, ?andb_true_r; [reflexivity|].
+  (* outside the mask the frame address has no bits *)
+  replace (N.testbit (frame_addr f) n) with false; [apply orb_false_r|].
+  symmetry. rewrite mask_bit in E. rewrite frame_addr_small by exact H52.
+  destruct (N.leb_spec 12 n) as [H12|H12]; cbn [andb] in E.
+  - apply N.ltb_ge in E. rewrite N.shiftl_spec_high' by exact H12.
+    apply N.bits_above_log2.
+    destruct (N.eq_dec f 0) as [->|Hz]; [cbn; lia|].
+    apply N.log2_lt_pow2; [lia|]. eapply N.lt_le_trans; [exact Hf|]. apply N.pow_le_mono_r; lia.
+  - apply N.shiftl_spec_low. exact H12.
+Qed.
+
+Lemma set_frame_same e f : hw_frame e = f -> set_frame e f = e.
+Proof.
+  intros Hf. subst f. unfold set_frame, andnot.
+  assert (E: frame_addr (hw_frame e) = N.land e vmm_ptePhysPageMask).
+  { pose proof (hw_frame_lt e) as Hl.
+    rewrite frame_addr_small by (change (2 ^ 40) with 1099511627776 in Hl; change (2 ^ 52) with 4503599627370496; lia).
+    unfold hw_frame. change 0xFFFFFFFFFF with (N.ones 40).
+    apply N.bits_inj. intros n. rewrite N.land_spec, mask_bit.
+    destruct (N.leb_spec 12 n) as [H12|H12].
+    - rewrite N.shiftl_spec_high' by exact H12. rewrite N.land_spec, N.shiftr_spec'. replace (n - 12 + 12) with n by lia.
+      cbn [andb]. destruct (N.ltb_spec n 52) as [H2|H2].
+      + rewrite N.ones_spec_low by lia. reflexivity.
+      + rewrite N.ones_spec_high by lia. reflexivity.
+    - rewrite N.shiftl_spec_low by exact H12. cbn [andb]. rewrite andb_false_r. reflexivity. }
+  rewrite E. apply N.lor_ldiff_and.
+Qed.
